@@ -196,6 +196,10 @@ class TransformationPerformer:
       ]
     consumers = []
     for original_op_id in instruction.consumers:
+      if original_op_id < 0:
+        # graph output pseudo consumer, not an index into the op id map.
+        consumers.append(-1)
+        continue
       consumers.append(
           self._original_op_id_map[transformation_inst.subgraph_id][
               original_op_id
@@ -218,11 +222,15 @@ class TransformationPerformer:
         transformation_inst.subgraph_id,
         trans_info,
     )
-    self._update_op_id_map(
-        transformation_inst.subgraph_id,
-        min(instruction.consumers),
-        trans_info.num_ops_added,
-    )
+    op_consumers = [c for c in instruction.consumers if c >= 0]
+    if op_consumers:
+      self._update_op_id_map(
+          transformation_inst.subgraph_id,
+          min(op_consumers),
+          trans_info.num_ops_added,
+      )
+    # otherwise the new ops feed only the graph output and were appended after
+    # every existing op: no original op moved.
 
   def _apply_transformations(
       self,
